@@ -34,10 +34,19 @@ RULE = ("complete lattice sign_response x sign_assertion given as argument (None
         "issue time, expiry and the one-day issue-instant bound x 6 lifetimes x accepted_time_diff, outstanding-request "
         "sets x allow_unsolicited x InResponseTo, requester x SP identity x consumer URL, issuer override, authn "
         "context shapes; plus seeded random requests (identity 1-5 attributes, multi-valued, unicode; 3 requesters; "
-        "lifetimes over all seven timedelta units incl. negative and fractional; random clock).  Every produced Response "
+        "lifetimes over all seven timedelta units incl. negative and fractional; random clock); PROCESS TIME ZONE: the "
+        "issuing call and the receiving call each run with TZ + tzset() set to one of 10 POSIX zones (UTC spelled out, "
+        "UTC-5, UTC+9, UTC+5:45, UTC+14, UTC-12, and daylight-saving rules of both hemispheres incl. half-hour ones) or "
+        "left in the starting zone, datetime.now() answering the wall clock of that zone at the virtual instant: "
+        "complete product zone of the issuer x (same / starting / other side of UTC) zone of the receiver x 5 lifetimes "
+        "(2 seeded (instant, SP clock edge) picks per cell, deep tier 12, out of 9 instants in winter, summer, around the "
+        "daylight-saving switches and new year x the window edges), every zone x every lifetime unit on the "
+        "issuing side, and a seeded share of all older families moved out of the starting zone (random 75%, sp-clock "
+        "60%, others 15%).  Every produced Response "
         "is read by the independent reader (xml.etree), its signatures verified through the stand-in under the IdP "
         "certificate, and (where an SP setting is part of the case) fed to a real Saml2Client.  non-trivial = distinct "
-        "(option cell, name-id source/format/policy, policy shape, farg shape, algorithm source, SP verdict)")
+        "(option cell, name-id source/format/policy, policy shape, farg shape, algorithm source, SP verdict, sign of the "
+        "zone offset on either side)")
 TRUSTED = ["xmlsec1 stand-in (harness/standin/xmlsec1.py)", "independent reader + abstraction in harness/c09.py",
            "SP acceptance models C01/C04/C05/C06 (each tied to the code by its own check)",
            "translator v2 harness/py2coq2.py + coq/theories/Base/Py2.v (semantics and trusted base: notes/translator_v2.md); "
@@ -58,6 +67,8 @@ ASSUMPTIONS = [
     "requester declares no RequestedAttribute, identity keys are names of the bundled uri attribute map, values "
     "are non-empty strings without surrounding whitespace",
     "the issue time is a whole second (virtual clock); lifetime units are integers under timedelta keyword names",
+    "a process time zone is a POSIX TZ string honoured by libc's tzset(); its offset at an instant (the `zone` the Coq "
+    "case carries) is libc's tm_gmtoff; the issuing and the receiving call each run in one zone from start to end",
     "a release_policy argument is a Policy built over the IdP's own metadata store",
     "an SPNameQualifier other than the requester is not itself an entity with registration info",
     "the signature algorithms used are those the stand-in implements (no RIPEMD160 digest)",
@@ -355,6 +366,14 @@ ATTR_NAMES = ["mail", "givenName", "sn", "cn", "displayName", "eduPersonAffiliat
 CFGV = [None, True, False, "true", "false", "", "yes"]      # None = not configured
 ARGV = [None, True, False]
 OPTV = [None, True, False, "true"]                            # SP want_* options
+# process time zones (POSIX TZ strings; None = the zone the check was started in): UTC spelled out, west, east,
+# fractional offsets, the two extremes (UTC-12 / UTC+14), daylight-saving rules of both hemispheres
+ZONES = [None, "UTC0", "EST5", "JST-9", "NPT-5:45", "CET-1CEST,M3.5.0,M10.5.0/3", "EST5EDT,M3.2.0,M11.1.0", "LINT-14",
+         "AOE12", "NST3:30NDT,M3.2.0,M11.1.0", "<+1030>-10:30<+11>-11,M10.1.0,M4.1.0"]
+SUMMER = 1689000000          # 2023-07-10T14:40:00Z (daylight saving in force in the northern rules)
+CET_BACK = 1698541200        # 2023-10-29T01:00:00Z: CEST -> CET (local 03:00 -> 02:00)
+US_BACK = 1699164000         # 2023-11-05T06:00:00Z: EDT -> EST (local 02:00 -> 01:00)
+US_FWD = 1710054000          # 2024-03-10T07:00:00Z: EST -> EDT
 
 
 def sp_md(entity_id, ra=None):
@@ -559,6 +578,76 @@ def read_response(xml_text):
     return r
 
 
+# ------------------------------------------------------------------------------ process time zone
+class in_zone:
+    """Run a block with the process time zone set to a POSIX TZ string (None = leave it alone); restored after."""
+
+    def __init__(self, tz):
+        self.tz = tz
+
+    def __enter__(self):
+        import time
+
+        self.old = os.environ.get("TZ")
+        if self.tz is not None:
+            os.environ["TZ"] = self.tz
+            time.tzset()
+
+    def __exit__(self, *exc):
+        import time
+
+        if self.tz is not None:
+            if self.old is None:
+                os.environ.pop("TZ", None)
+            else:
+                os.environ["TZ"] = self.old
+            time.tzset()
+        return False
+
+
+_zo = {}
+
+
+def zone_offset(tz, t):
+    """Seconds east of UTC of the wall clock of zone tz at instant t (libc: tm_gmtoff)."""
+    import time
+
+    if (tz, t) not in _zo:
+        with in_zone(tz):
+            _zo[(tz, t)] = int(time.localtime(t).tm_gmtoff)
+    return _zo[(tz, t)]
+
+
+def local_clock():
+    """LOCAL extension of env.VClock (env.py is shared, read-only; same as harness/c07.py:local_clock): its datetime
+    stand-in answers now() without a zone with the UTC wall time, which hides a change from utcnow() to now() from
+    the time-zone dimension.  Here now() / today() without a zone are what they really are: the wall time of the
+    process time zone at the virtual instant (fromtimestamp and time.localtime already follow TZ)."""
+    import saml2.time_util as tu
+
+    if getattr(tu.datetime, "_c09_local", False):
+        return
+    clock = spaccept.CLOCK
+
+    class LocalVDateTime(tu.datetime):
+        _c09_local = True
+
+        @classmethod
+        def now(cls, tz=None):
+            return cls.fromtimestamp(clock.now, tz)
+
+        @classmethod
+        def today(cls):
+            return cls.fromtimestamp(clock.now)
+
+    tu.datetime = LocalVDateTime
+
+
+def case_tz(case):
+    tz = case.get("tz") or {}
+    return tz.get("idp"), tz.get("sp")
+
+
 # ------------------------------------------------------------------------------ observe
 def _farg_dict(f):
     if f is None:
@@ -598,7 +687,22 @@ def sp_over(case):
 def observe(case):
     env.install_standin()
     spaccept.CLOCK.install()
+    local_clock()
     _memo_keys()
+    tz_idp, tz_sp = case_tz(case)
+    try:
+        with in_zone(tz_idp):
+            out, xml = _observe_idp(case)
+        if xml is not None and case["spside"] is not None:
+            with in_zone(tz_sp):
+                _observe_sp(case, xml, out)
+        return out
+    finally:
+        spaccept.CLOCK.set(NOW)
+
+
+def _observe_idp(case):
+    """-> (observation, XML of the Response or None); runs inside the issuing process's time zone."""
     from saml2 import SAMLError
     from saml2.assertion import Policy
     from saml2.saml import NameID
@@ -606,65 +710,65 @@ def observe(case):
 
     a = case["args"]
     spaccept.CLOCK.set(case["now"])
+    idp = get_idp(case)
+    for k, st in enumerate(case["stored"]):
+        idp.ident.store(a["userid"], NameID(format=st["format"], sp_name_qualifier=st["spnq"],
+                                             name_qualifier=st["nq"], text="stored-%d" % k))
+    kw = {}
+    if a["nip"] is not None:
+        kw["name_id_policy"] = NameIDPolicy(format=a["nip"]["format"], sp_name_qualifier=a["nip"]["spnq"])
+    if a["name_id"] is not None:
+        g = a["name_id"]
+        kw["name_id"] = NameID(format=g["format"], sp_name_qualifier=g["spnq"], name_qualifier=g["nq"], text="given-1")
+    if a["authn"] is not None:
+        kw["authn"] = {k: v for k, v in (("class_ref", a["authn"][0]), ("authn_auth", a["authn"][1])) if v is not None}
+    for k in ("issuer", "sign_response", "sign_assertion", "sign_alg", "digest_alg"):
+        if a[k] is not None:
+            kw[k] = a[k]
+    if a["pol"] is not None:
+        kw["release_policy"] = Policy(py_policy(a["pol"]), mds=idp.metadata)
+    if a["farg"] is not None:
+        kw["farg"] = _farg_dict(a["farg"])
+    ident = {k: list(v) for k, v in a["ident"]}
+    out = {"k": "issued"}
     try:
-        idp = get_idp(case)
-        for k, st in enumerate(case["stored"]):
-            idp.ident.store(a["userid"], NameID(format=st["format"], sp_name_qualifier=st["spnq"],
-                                                 name_qualifier=st["nq"], text="stored-%d" % k))
-        kw = {}
-        if a["nip"] is not None:
-            kw["name_id_policy"] = NameIDPolicy(format=a["nip"]["format"], sp_name_qualifier=a["nip"]["spnq"])
-        if a["name_id"] is not None:
-            g = a["name_id"]
-            kw["name_id"] = NameID(format=g["format"], sp_name_qualifier=g["spnq"], name_qualifier=g["nq"], text="given-1")
-        if a["authn"] is not None:
-            kw["authn"] = {k: v for k, v in (("class_ref", a["authn"][0]), ("authn_auth", a["authn"][1])) if v is not None}
-        for k in ("issuer", "sign_response", "sign_assertion", "sign_alg", "digest_alg"):
-            if a[k] is not None:
-                kw[k] = a[k]
-        if a["pol"] is not None:
-            kw["release_policy"] = Policy(py_policy(a["pol"]), mds=idp.metadata)
-        if a["farg"] is not None:
-            kw["farg"] = _farg_dict(a["farg"])
-        ident = {k: list(v) for k, v in a["ident"]}
-        out = {"k": "issued"}
-        try:
-            resp = idp.create_authn_response(ident, a["irt"], a["dest"], a["sp"], userid=a["userid"], **kw)
-        except SAMLError as e:
-            return {"k": "error", "e": "ENameId"} if type(e) is SAMLError else {"k": "other", "why": "exc:" + type(e).__name__}
-        except Exception as e:  # noqa
-            return {"k": "error", "e": "EAlg"} if type(e) is Exception else {"k": "other", "why": "exc:" + type(e).__name__}
-        xml = str(resp)
-        try:
-            out.update(read_response(xml))
-        except Malformed as e:
-            return {"k": "other", "why": "malformed:%s" % e}
-        t = out.pop("nid_text")
-        if t == "given-1":
-            out["src"] = "given"
-        elif t.startswith("stored-"):
-            out["src"] = int(t[len("stored-"):])
-        elif len(t) >= 64 and all(c in "0123456789abcdef" for c in t[:64]):
-            out["src"] = "fresh"
-        else:
-            return {"k": "other", "why": "name id text"}
-        if case["spside"] is not None:
-            s = case["spside"]
-            sp = spaccept.get_sp(sp_over(case))
-            spaccept.CLOCK.set(s["now"])
-            outstanding = {k: v for k, v in s["outstanding"]}
-            binding = s["binding"]
-            enc = render.b64(xml) if binding == POST else render.deflate_b64(xml)
-            o = spaccept.observe(sp, xml, binding, outstanding, encoded=enc)
-            if o["exc"] is None and o["ava"] is not None and o["nooa"] is not None and o["name_id"] is not None:
-                out["sp"] = {"ava": sorted([k, list(v)] for k, v in o["ava"].items()), "nooa": o["nooa"],
-                             "came_from": o["came_from"]}
-            else:
-                out["sp"] = None
-                out["sp_exc"] = o["exc"]
-        return out
-    finally:
-        spaccept.CLOCK.set(NOW)
+        resp = idp.create_authn_response(ident, a["irt"], a["dest"], a["sp"], userid=a["userid"], **kw)
+    except SAMLError as e:
+        return ({"k": "error", "e": "ENameId"} if type(e) is SAMLError else {"k": "other", "why": "exc:" + type(e).__name__}), None
+    except Exception as e:  # noqa
+        return ({"k": "error", "e": "EAlg"} if type(e) is Exception else {"k": "other", "why": "exc:" + type(e).__name__}), None
+    xml = str(resp)
+    try:
+        out.update(read_response(xml))
+    except Malformed as e:
+        return {"k": "other", "why": "malformed:%s" % e}, None
+    t = out.pop("nid_text")
+    if t == "given-1":
+        out["src"] = "given"
+    elif t.startswith("stored-"):
+        out["src"] = int(t[len("stored-"):])
+    elif len(t) >= 64 and all(c in "0123456789abcdef" for c in t[:64]):
+        out["src"] = "fresh"
+    else:
+        return {"k": "other", "why": "name id text"}, None
+    return out, xml
+
+
+def _observe_sp(case, xml, out):
+    """the same XML shown to a real service provider, inside the receiving process's time zone."""
+    s = case["spside"]
+    sp = spaccept.get_sp(sp_over(case))
+    spaccept.CLOCK.set(s["now"])
+    outstanding = {k: v for k, v in s["outstanding"]}
+    binding = s["binding"]
+    enc = render.b64(xml) if binding == POST else render.deflate_b64(xml)
+    o = spaccept.observe(sp, xml, binding, outstanding, encoded=enc)
+    if o["exc"] is None and o["ava"] is not None and o["nooa"] is not None and o["name_id"] is not None:
+        out["sp"] = {"ava": sorted([k, list(v)] for k, v in o["ava"].items()), "nooa": o["nooa"],
+                     "came_from": o["came_from"]}
+    else:
+        out["sp"] = None
+        out["sp_exc"] = o["exc"]
 
 
 # ------------------------------------------------------------------------------ Coq terms
@@ -770,7 +874,8 @@ def coq_input(case):
         cq_attrs(a["ident"]), cso(a["irt"]), cs(a["dest"]), cs(a["sp"]), nip, nameid, cq_pairopt(a["authn"]),
         cso(a["issuer"]), cso(a["sign_response"]), cso(a["sign_assertion"]), cso(a["sign_alg"]),
         cso(a["digest_alg"]), pol, fa)
-    return "(mk_in %s %s %s %s %s)" % (cfg, args, cso(case["ra"]), cq([cq_nid(n) for n in case["stored"]]), cq(case["now"]))
+    return "(mk_in %s %s %s %s %s %s)" % (cfg, args, cso(case["ra"]), cq([cq_nid(n) for n in case["stored"]]), cq(case["now"]),
+                                         cq(zone_offset(case_tz(case)[0], case["now"])))
 
 
 def coq_outcome(obs):
@@ -795,9 +900,10 @@ def coq_case(case, obs):
     else:
         post, red = REQUESTERS[s["me"]]
         specs = "[C04.Model.EP %s %s; C04.Model.EP %s %s]" % (cs(post), cs(POST), cs(red), cs(REDIRECT))
-        side = "(mk_sp %s %s %s %s %s %s %s %s %s %s %s)" % (
+        side = "(mk_sp %s %s %s %s %s %s %s %s %s %s %s %s)" % (
             cs(s["me"]), cs(IDP), specs, cs(s["binding"]), cq_optv(s["wr"]), cq_optv(s["wa"]), cq_optv(s["wor"]),
-            cso(s["atd"]), cq(bool(s["allow_unsolicited"])), cq([(cs(k), cs(v)) for k, v in s["outstanding"]]), cq(s["now"]))
+            cso(s["atd"]), cq(bool(s["allow_unsolicited"])), cq([(cs(k), cs(v)) for k, v in s["outstanding"]]), cq(s["now"]),
+            cq(zone_offset(case_tz(case)[1], s["now"])))
         o = obs.get("sp")
         so = "None" if o is None else "(Some (%s, %s, %s))" % (cq_attrs(o["ava"]), cq(o["nooa"]), cso(o["came_from"]))
         sp = "(Some (%s, %s))" % (side, so)
@@ -831,9 +937,9 @@ def mk_spside(me=world.SP_ID, wr=None, wa=None, wor=None, dt=60, atd=None, allow
             "outstanding": [list(x) for x in outstanding], "binding": binding, "now": now + dt}
 
 
-def mk_case(tag, cfg=None, args=None, ra=None, stored=(), now=NOW, spside=None):
+def mk_case(tag, cfg=None, args=None, ra=None, stored=(), now=NOW, spside=None, tz=(None, None)):
     return {"tag": tag, "cfg": cfg or mk_cfg(), "args": args or mk_args(), "ra": ra, "stored": list(stored), "now": now,
-            "spside": spside}
+            "spside": spside, "tz": {"idp": tz[0], "sp": tz[1]}}
 
 
 def nid(fmt, spnq, nq=IDP):
@@ -1087,6 +1193,47 @@ def gen_random(rng, n):
     return out
 
 
+def gen_zone(rng, thorough):
+    """the process time zone: zone of the issuing process x zone of the receiving process (the same, the starting
+    zone, or one on the other side of UTC) x lifetime (configured / the default hour / zero / beyond the one-day
+    issue-instant bound), at instants in winter, in summer, around the daylight-saving switches and the date line,
+    the SP clock at the edges of the window; plus every zone with every lifetime unit on the issuing side alone."""
+    out = []
+    lifes = [([["minutes", 15]], 900), (None, 3600), ([["seconds", 0]], 0), ([["days", 2]], 172800),
+             ([["hours", -1]], -3600)]
+    nows = [NOW, SUMMER, CET_BACK - 1, CET_BACK + 1800, US_BACK - 600, US_FWD - 1, NOW + 6400, 1704067199, 1709164800]
+    for zi in ZONES:
+        others = [zi, None, "EST5EDT,M3.2.0,M11.1.0" if zone_offset(zi, NOW) > 0 else "<+1030>-10:30<+11>-11,M10.1.0,M4.1.0"]
+        for k, zs in enumerate(others):
+            if zs == zi and k > 0:
+                zs = "JST-9"
+            for lt, secs in lifes:
+                dts = sorted({0, 1, secs - 1, secs, secs + 1, min(secs, 86400) - 1, 86400, 86401, -1})
+                picks = [(rng.choice(nows), rng.choice(dts)) for _ in range(12 if thorough else 2)]
+                for now, dt in picks:
+                    pol = [["default", {"lifetime": lt, "nameid_format": None}]]
+                    out.append(mk_case("zone", mk_cfg(pol=pol), mk_args(sign_response=True), now=now,
+                                       spside=mk_spside(dt=dt, atd=rng.choice([None, None, 60]), now=now), tz=(zi, zs)))
+        for unit, n in (("weeks", 1), ("days", 1), ("hours", 5), ("hours", 14), ("minutes", 345), ("seconds", 20700),
+                        ("milliseconds", 1500), ("microseconds", 999999)):
+            pol = [[world.SP_ID, {"lifetime": [[unit, n]], "nameid_format": None}]]
+            out.append(mk_case("zone-idp", mk_cfg(pol=pol), mk_args(sign_assertion=rng.choice(ARGV)),
+                               now=rng.choice(nows) + rng.randint(-86400, 86400), tz=(zi, None)))
+    return out
+
+
+def spread_zones(cases, zr):
+    """the families made before the time-zone dimension existed keep their cases; a seeded part of them is moved out of
+    the starting zone (own PRNG, drawn after everything else, so that the cases themselves stay what they were)."""
+    share = {"random": 0.75, "sp-clock": 0.6}
+    for c in cases:
+        if c["tag"] in ("zone", "zone-idp"):
+            continue
+        if zr.random() < share.get(c["tag"], 0.15):
+            zi = zr.choice(ZONES[1:])
+            c["tz"] = {"idp": zi, "sp": zr.choice([zi, zi, None] + ZONES[1:])}
+
+
 def generate(ctx):
     rng = ctx.rng
     t = live_values()
@@ -1098,6 +1245,10 @@ def generate(ctx):
     cases += gen_algs(rng, ctx.thorough, t)
     cases += gen_sp(rng, ctx.thorough)
     cases += gen_random(rng, 1500 if ctx.thorough else 200)
+    cases += gen_zone(rng, ctx.thorough)
+    import random
+
+    spread_zones(cases, random.Random(rng.getrandbits(64)))
     for c in cases:
         if c["args"]["authn"] == "empty":
             c["args"]["authn"] = [None, None]
@@ -1120,15 +1271,26 @@ def nontrivial(case, obs):
            None if a["nip"] is None else (a["nip"]["format"], a["nip"]["spnq"] == a["sp"], a["nip"]["spnq"] is None),
            polshape, case["ra"] is not None, a["pol"] is not None,
            None if not isinstance(a["farg"], dict) else tuple(v is not None for v in a["farg"].values()),
-           a["sign_alg"], c["salg"], a["digest_alg"], c["dalg"], a["irt"] is None, a["dest"] == "", spv)
+           a["sign_alg"], c["salg"], a["digest_alg"], c["dalg"], a["irt"] is None, a["dest"] == "", spv,
+           _sign(zone_offset(case_tz(case)[0], case["now"])),
+           None if case["spside"] is None else _sign(zone_offset(case_tz(case)[1], case["spside"]["now"])))
     return key
+
+
+def _sign(n):
+    return (n > 0) - (n < 0)
 
 
 def histogram(cases, observed):
     h = {"by_tag": {}, "outcome": {}, "signed": {}, "nameid_source": {}, "nameid_format": {}, "sp": {}, "attrs_per_identity": {},
-         "lifetime_seconds": {}}
+         "lifetime_seconds": {}, "zone_issuer_hours": {}, "zone_receiver_hours": {}}
     for c, o in zip(cases, observed):
         h["by_tag"][c["tag"]] = h["by_tag"].get(c["tag"], 0) + 1
+        z = "%+.2f" % (zone_offset(case_tz(c)[0], c["now"]) / 3600.0) if case_tz(c)[0] is not None else "start"
+        h["zone_issuer_hours"][z] = h["zone_issuer_hours"].get(z, 0) + 1
+        if c["spside"] is not None:
+            z = "%+.2f" % (zone_offset(case_tz(c)[1], c["spside"]["now"]) / 3600.0) if case_tz(c)[1] is not None else "start"
+            h["zone_receiver_hours"][z] = h["zone_receiver_hours"].get(z, 0) + 1
         k = o["k"] if o["k"] != "error" else "error:" + o["e"]
         if o["k"] == "other":
             k = "other:" + o["why"]
